@@ -232,7 +232,7 @@ def leak(c: sym.Ctx, case: Dict[str, Any]) -> None:
     c.check(exc is None, "history_completes", exc=repr(exc))
 
 
-BOUNDARY_VALUES = [0, -1, 2**70, 0.0, -0.0, 1e308, False, True, "", " ", "0", "False", "None", b"", b"\x00", b"\xff\xfe"]
+BOUNDARY_VALUES = [0, -1, 2**70, 2**53 + 1, -(2**63 - 1), 10**30 + 7, 0.0, -0.0, 1e308, False, True, "", " ", "0", "False", "None", b"", b"\x00", b"\xff\xfe"]
 
 
 def boundary(c: sym.Ctx, case: Dict[str, Any]) -> None:
